@@ -89,7 +89,13 @@ def make(type_name, empty, length_key, allowed_key, fmt, maxlen, late_allowed=Fa
         return h
 
     def replay(args):
-        ok, cls, detail = go(args["cell"], args["hook_ok"])
+        try:
+            ok, cls, detail = go(args["cell"], args["hook_ok"])
+        except Exception as e:  # noqa  (the declarations of the grid are all well-formed)
+            return True, "%s field (empty=%s, length=%r, rule=%r) under format %s with allowed characters %r%s cannot be " \
+                "declared: %s: %s" % (type_name, empty, length_text, rule, fmt, allowed_text,
+                                      " (row after the field row, through Cid.read)" if late_allowed else "",
+                                      type(e).__name__, e), "field-guards"
         return (not ok), "%sFieldFormat(empty=%s, length=%r, rule=%r) format %s allowed %r cell %r: %s" % (
             type_name, empty, length_text, rule, fmt, allowed_text, args["cell"], detail), "field-guards"
 
@@ -123,6 +129,8 @@ def grid():
     for t, e, lk, ak, fmt in itertools.product(ff.TYPES, (False, True), ff.LENGTHS, ff.ALLOWED, ff.FORMATS):
         if fmt == "fixed" and lk != "exact":
             continue  # fixed: exactly one exact length (the width)
+        if ak == "quoted":
+            continue
         if constructible(t, e, lk, fmt):
             out.append((t, e, lk, ak, fmt))
     return out
@@ -156,12 +164,13 @@ def build(tier, seed):
                              functions=FUNCS, stubs=("type hook validated_value replaced by a recorder", "S-FMT")))
     for t, e, lk, fmt in (("Text", False, "both", "delimited"), ("Integer", True, "exact", "fixed"), ("Choice", False, "none", "ods")) + (
             () if tier == "quick" else (("Decimal", True, "upper", "excel"), ("RegEx", False, "exact", "fixed"), ("DateTime", True, "none", "delimited"))):
-        mk, rp = make(t, e, lk, "one", fmt, 3, late_allowed=True)
-        queries.append(Query("C03/%s/%s/empty=%s/len=%s/allowed=one-declared-after-the-field" % (t, fmt, "X" if e else "-", lk),
+        ak = "quoted" if t in ("Text", "Decimal") else "one"
+        mk, rp = make(t, e, lk, ak, fmt, 3, late_allowed=True)
+        queries.append(Query("C03/%s/%s/empty=%s/len=%s/allowed=%s-declared-after-the-field" % (t, fmt, "X" if e else "-", lk, ak),
                              "guards-late-allowed", mk,
                              "%s field loaded through Cid.read with the 'allowed characters' row after the field row (%s); cell: "
                              "every Unicode text of length <= 3" % (t, fmt), budget_s=300, per_path_timeout=60, replay=rp,
-                             expect=reachable_classes(fmt, e, lk, "one", 3), functions=FUNCS + ("cutplace.interface.Cid.read",),
+                             expect=reachable_classes(fmt, e, lk, ak, 3), functions=FUNCS + ("cutplace.interface.Cid.read",),
                              stubs=("type hook validated_value replaced by a recorder", "S-FMT")))
     # the guards are consulted for every cell of every row (not only the first time a value is seen): consecutive
     # rows through the real Reader, each cell judged by the guard oracle of its field (machinery shared with C04)
